@@ -53,7 +53,8 @@ def nb(x, toward):
 ISOTOPES = [(0.0072, 2.0e-8, 703.8, 5.69e-4),      # U235
             (0.9928, 2.0e-8, 4468.0, 9.46e-5),     # U238
             (1.0, 8.0e-8, 14050.0, 2.64e-5),       # Th232
-            (1.19e-4, 2.4e-4, 1277.0, 2.92e-5)]    # K40
+            (1.19e-4, 2.4e-4, 1277.0, 2.92e-5),    # K40
+            (5.0e-5, 8.0e-3, 0.717, 0.355)]        # Al26 (short-lived: 2^(t_ref/half-life) overflows a double for t_ref = 4600 Myr)
 COOL_PARAMS = [  # k, kappa, alpha_exp, g, rho, conv_alpha, conv_beta, Ra_crit
     (4.0, 1.0e-6, 5.0e-5, 9.8, 3300.0, 1.0, 1.0 / 3.0, 1100.0),
     (2.3, 1.1e-6, 1.6e-4, 1.3, 950.0, 0.5, 0.25, 1000.0),
@@ -86,6 +87,7 @@ def cases(tier, seed):
     out = []
     base = dict(tier=tier, seed=seed)
     subsets = [list(s) for n in range(1, 5) for s in itertools.combinations(range(4), n)]
+    subsets += [[4], [4, 0], [1, 4], [4, 2, 3]]     # tables containing the short-lived isotope
     for s in subsets:
         for tref in (4600.0, 0.0):
             out.append(dict(kind='isotope', table=s, tref=tref, **base))
@@ -209,7 +211,10 @@ def _case_isotope(c, V, h):
             with mp.workdps(40):
                 want = mp.mpf(m) * sum(mp.mpf(fr[i]) * mp.mpf(co[i]) * mp.mpf(qq[i])
                                        * mp.mpf(2) ** (-(mp.mpf(t) - mp.mpf(tref)) / mp.mpf(hl[i])) for i in range(n))
+                representable = mp.mpf('1e-290') < want < mp.mpf('1e290')
                 e = float(abs(mp.mpf(full) - want) / want) if math.isfinite(full) else INF
+            if not representable:
+                continue        # the exact value itself under/overflows a double at this time: nothing is promised
             worst['closed'] = max(worst['closed'], e)
             if not e <= 1e-12:
                 V.add(f'{S}/closed-form', t=t, mass=m, table=c['table'], got=full, want=float(want), err=e)
